@@ -53,7 +53,8 @@ PropsFor(base, v) ==
   base \cup (IF HasHidden(v) THEN {"C07"} ELSE {}) \cup (IF HasMulti(v) THEN {"C13"} ELSE {})
 
 AccFields == {"hints", "details", "fhints", "fdetails", "links", "tags", "domain", "hasAssert",
-              "isAssert", "hasLink", "isLink", "hasUnimpl", "isUnimpl", "http", "grpc"}
+              "isAssert", "hasLink", "isLink", "hasUnimpl", "isUnimpl", "http", "grpc",
+              "notin", "hasHinter", "ifDetail"}
 
 \* compare a recorded accessor observation with a model one
 AccDiff(ra, ma) ==
@@ -145,7 +146,7 @@ ReportRep(ev, v) ==
       want == [hasSource |-> HasSource(v, reg), srcPrefix |-> TRUE, headOK |-> TRUE, ncomp |-> Len(VisNodes(v)),
                nexc |-> IF ns = 0 THEN 1 ELSE ns, synthetic |-> ns = 0, excFrames |-> TRUE, excOwn |-> TRUE,
                excModule |-> TRUE,
-               nstack |-> ns, types |-> TypeLines(v, reg), nilNothing |-> TRUE]
+               nstack |-> ns, types |-> TypeLines(v, reg), nilNothing |-> TRUE, sentOK |-> TRUE]
       bad == {k \in DOMAIN want : r[k] # want[k]}
   IN Chk(bad = {}, ev, "report", "verdict", PropsFor({"C15"}, v), [k \in bad |-> want[k]], [k \in bad |-> r[k]])
 
